@@ -4,10 +4,12 @@
   op line (prefix token encoding):
     c03.q   <w> <nv> v_0 … v_{nv-1} <nt> { <ncols> <nrows> cell… }*  <Plan>
     c03.recu … the same with UNION (distinct) instead of UNION ALL
+    c03.resolve <n> {view name isJoin nAliases alias… number fromTable identifier}* (N view name | C view number | X identifier)
+                 Header.SearchIndex / ContainsObject on a described header: I<index> | EAMB | ENOF | NONE
     c03.rec <w> <limit> <nv> v… <nt> {table}* <Plan anchor> <Plan step> [<Plan final>]
   `w`      = number of worker chunks the model cuts every outer record range into (the answer must not depend on it)
   `v_i`    = profile tokens (Proto.parseProfile); cells and literals are indices into this dictionary
-  Plan    := T k | G | J kind Plan Plan JC | Q Plan Where Sel
+  Plan    := T k | G | D (no FROM: DUAL) | J kind Plan Plan JC | Q Plan Where Sel
            | A alias n name… Plan            the sub-plan seen under a table alias (n > 0: columns renamed)
            | E nt (name k nc col…)* nf (name k nc col…)* Plan    session: temporary tables / files by name
            | W name nc col… Plan(def) Plan(body)                 common table expression
@@ -18,6 +20,7 @@
            | JL kind Plan Plan JC            LATERAL: the right plan is evaluated for every left record
   kind    := C | I | L | R | F
   JC      := - | O Cond | U n (li ri)*          (li / ri: column index in the left / right operand)
+           | UN n name… | NA                  (USING by names / NATURAL: the model resolves the names itself)
   Where   := - | W Cond
   Sel     := * | S n i… | L n item…      item := i idx out|- | r view|- name out|- | v lit out|- | b Cond out|- | k Cond lit lit out|-
              (out = AS name; v = literal, b = a condition as a value, k = CASE WHEN Cond THEN lit ELSE lit END)
@@ -44,6 +47,8 @@ inductive JCond
   | none
   | on (c : CondE)
   | using (pairs : List (Nat × Nat))
+  | usingNames (names : List String)     -- USING (names): resolved by the model (`usingPairs`)
+  | natural                              -- NATURAL: the model finds the common names (`naturalNames`)
 
 inductive SelItem
   | idx (i : Nat) (out : Option String)
@@ -63,6 +68,7 @@ abbrev NamedTbl := String × Nat × List String
 inductive Plan
   | tbl (k : Nat)
   | gen
+  | dual                                   -- no FROM clause / DUAL: one record without fields
   | join (k : JKind) (l r : Plan) (jc : JCond)
   | query (subs : List Plan) (src : Plan) (wh : Option CondE) (sel : Sel)
   | setop (op : SetOp) (all : Bool) (l r : Plan)
@@ -251,6 +257,11 @@ def pJCond (vals : Array Profile) (fuel : Nat) : P JCond
     let (n, ts) ← pNat ts
     let (xs, ts) ← pNats (2 * n) ts
     pure (.using (pairUp xs), ts)
+  | "UN" :: ts => do
+    let (n, ts) ← pNat ts
+    let (names, ts) ← pNames n ts
+    pure (.usingNames names, ts)
+  | "NA" :: ts => some (.natural, ts)
   | _ => none
 
 def pPlan (vals : Array Profile) : Nat → P Plan
@@ -261,6 +272,7 @@ def pPlan (vals : Array Profile) : Nat → P Plan
       let (k, ts) ← pNat ts
       pure (.tbl k, ts)
     | "G" => some (.gen, ts)
+    | "D" => some (.dual, ts)
     | "J" =>
       match ts with
       | k :: ts => do
@@ -462,10 +474,25 @@ def joinCore (env : Env) (kind : JKind) (lh : Hdr) (L : List Row) (rh : Hdr) (R 
     Except String (Hdr × List Row) := do
   let lw := lh.length
   let rw := rh.length
+  -- USING (names) / NATURAL: ParseJoinCondition
+  let jc ← (match jc with
+    | .usingNames names =>
+      (match usingPairs lh rh names with
+      | .ok ps => pure (JCond.using ps)
+      | .error e => throw (errStr e))
+    | .natural =>
+      (match naturalNames lh rh with
+      | .error e => throw (errStr e)
+      | .ok names =>
+        match usingPairs lh rh names with
+        | .ok ps => pure (JCond.using ps)
+        | .error e => throw (errStr e))
+    | x => pure x)
   let ce : Option CondE := match jc with
     | .none => none
     | .on c => some (resolveCondEnv (lh ++ rh) env.outer c)
     | .using pairs => usingCond pairs
+    | _ => none
   -- references that fail to resolve raise their error where the nested loop evaluates them
   match ce with
   | some c =>
@@ -507,6 +534,7 @@ def eval : Nat → Env → Plan → Except String (Hdr × List Row)
     let (nc, rows) ← optE env.tables[k]?
     pure (anonHdr nc, rows)
   | .gen => pure env.gen
+  | .dual => pure ([], [[]])
   | .join kind l r jc => do
     let (lh, L) ← eval fuel env l
     let (rh, R) ← eval fuel env r
@@ -650,10 +678,57 @@ def showE (r : Except String (Hdr × List Row)) : String :=
   | .ok v => showRes v
   | .error e => e
 
+def hexStr (t : String) : Option String :=
+  if t = "-" then some "" else (unhex t).map (fun bs => String.ofList (bs.map Char.ofNat))
+
+/-- header description: `<n> { view name isJoin nAliases alias… number fromTable identifier }*` (strings in hex, `-` = empty) -/
+def pHdr : Nat → P Hdr
+  | 0, ts => some ([], ts)
+  | n + 1, v :: nm :: j :: ts => do
+    let v ← hexStr v
+    let nm ← hexStr nm
+    let j ← parseBool j
+    let (na, ts) ← pNat ts
+    let (als, ts) ← pNames na ts
+    let als ← als.mapM hexStr
+    match ts with
+    | num :: ft :: ident :: ts => do
+      let num ← num.toNat?
+      let ft ← parseBool ft
+      let ident ← hexStr ident
+      let (rest, ts) ← pHdr n ts
+      pure ({ view := v, name := nm, isJoin := j, aliases := als, number := num, fromTable := ft, identifier := ident } :: rest, ts)
+    | _ => none
+  | _, _ => none
+
+def showIdx (r : Except ResErr Nat) : String :=
+  match r with
+  | .ok k => "I" ++ toString k
+  | .error e => errStr e
+
+/-- `c03.resolve <header> N view name | C view number | X identifier`: the index the reference denotes, or the error -/
+def resolveOp (args : List String) : Option String := do
+  let (n, ts) ← pNat args
+  let (h, ts) ← pHdr n ts
+  match ts with
+  | ["N", v, nm] => do
+    let v ← hexStr v
+    let nm ← hexStr nm
+    pure (showIdx (searchIndex h (.byName (if v = "" then none else some v) nm)))
+  | ["C", v, k] => do
+    let v ← hexStr v
+    let k ← k.toInt?
+    pure (showIdx (searchIndex h (.byNumber v k)))
+  | ["X", ident] => do
+    let ident ← hexStr ident
+    pure (match containsIdent eqIdent h ident with | some k => "I" ++ toString k | none => "NONE")
+  | _ => none
+
 def c03 (cmd : String) (args : List String) : String :=
   -- a trailing `#<hex of the SQL text>` token is a comment for the human reader of a failing case
   let args := args.filter (fun a => !a.startsWith "#")
   match cmd with
+  | "resolve" => (resolveOp args).getD bad
   | "q" =>
     (do
       let (w, ts) ← pNat args
